@@ -167,6 +167,10 @@ def run(m: Model, r: Report, tier: str) -> None:
                  "every concrete request class is reachable by dynamic parsing", floor=60)
     r.rule("R9", "address/length-format helpers put memorySize length in the high and memoryAddress length in the low nibble", floor=3)
     r.rule("R10", "UDSClient service methods forward every parameter to the constructor parameter of the same name", floor=30)
+    r.rule("R11", "from_pdu returns a typed request only after comparing its re-serialisation with the parsed bytes (non-canonical "
+                  "encodings fall back to RawRequest, which keeps the bytes)", floor=2)
+    from sa.uds_rules import request_roundtrip_guard
+    request_roundtrip_guard(m, r, "R11")
 
     registered = reg.registered_requests()
     # ---------------------------------------------------------------- R8
